@@ -1614,12 +1614,46 @@ pub proof fn lemma_apcl_closed(s: &Schedule, v: VehicleIdx, p: Seq<NodeIdx>, s1:
     lemma_apcl_transitions(s, s.type_of(v), s1);
     lemma_apcl_vehicle(s, v, p, s1);
 }
-/// the same for whatever schedule the function returns (the result only exists in the tail expression of the body)
-pub proof fn lemma_apcl_closed_all(s: &Schedule, v: VehicleIdx, p: Seq<NodeIdx>)
-    requires s.ap_ok(), s.ap_vehicle_ok(v), path_shape(&s.network, p), s.ap_path_fresh(v, p),
-    ensures forall|s1: Schedule| #[trigger] s.ap_effects(v, p, &s1) ==> s.ap_closed(v, p, &s1),
+/// two schedules with the same abstract state (the views of the maps / lists, the scalar fields, the network): what
+/// `Schedule::new(self.vehicles.clone(), tours, …)` and a ghost `Schedule { vehicles: self.vehicles, tours, … }` have in common
+pub open spec fn apcl_same_views(a: &Schedule, b: &Schedule) -> bool {
+    &&& b.vehicles@ == a.vehicles@ && b.tours@ == a.tours@ && b.next_period_transitions@ == a.next_period_transitions@
+    &&& b.train_formations@ == a.train_formations@ && b.depot_usage@ == a.depot_usage@ && b.dummy_tours@ == a.dummy_tours@
+    &&& b.vehicle_counter == a.vehicle_counter && b.vehicle_ids_grouped_and_sorted@ == a.vehicle_ids_grouped_and_sorted@
+    &&& b.dummy_ids_sorted@ == a.dummy_ids_sorted@ && b.unserved_passengers == a.unserved_passengers
+    &&& b.maintenance_violation == a.maintenance_violation && b.costs == a.costs && b.network == a.network
+}
+/// the effect clauses only speak about the abstract state of the result
+pub proof fn lemma_apcl_effects_same(s: &Schedule, v: VehicleIdx, p: Seq<NodeIdx>, a: &Schedule, b: &Schedule)
+    requires apcl_same_views(a, b), s.ap_effects(v, p, a),
+    ensures s.ap_effects(v, p, b),
 {
-    assert forall|s1: Schedule| #[trigger] s.ap_effects(v, p, &s1) implies s.ap_closed(v, p, &s1) by {
+    assert(s.ap_tour_after(v, p, b));
+    assert(s.ap_rest_untouched(b));
+    assert(s.transitions_follow(s.type_of(v), b));
+}
+/// CLOSURE for whatever schedule the function returns.  The result only exists in the tail expression of the body, so the body
+/// proves the effect clauses for a ghost schedule `res` built from the same components and this lemma hands effects + closure
+/// on to every schedule with the same abstract state.  The quantifier has one trigger per postcondition atom that speaks about
+/// the result (so it is instantiated in whichever postcondition the solver looks at), and its hypothesis is 13 equalities that
+/// follow from the postcondition of Schedule::new and the specifications of `clone`.
+pub proof fn lemma_apcl_closed_like(s: &Schedule, v: VehicleIdx, p: Seq<NodeIdx>, res: &Schedule)
+    requires s.ap_ok(), s.ap_vehicle_ok(v), path_shape(&s.network, p), s.ap_path_fresh(v, p), s.ap_effects(v, p, res),
+    ensures
+        forall|s1: Schedule|
+            #![trigger s.ap_effects(v, p, &s1)]
+            #![trigger s1.sv_ids_ok()]
+            #![trigger s1.ap_formations_exact()]
+            #![trigger s1.ap_unserved_covers()]
+            #![trigger s1.sv_formations_ok()]
+            #![trigger s1.transitions_ok()]
+            #![trigger s1.ap_ok()]
+            #![trigger s1.ap_vehicle_ok(v)]
+            #![trigger usage_exact(s1.depot_usage@, &s1.network, s1.vehicles@, s1.tours@)]
+            apcl_same_views(res, &s1) ==> s.ap_effects(v, p, &s1) && s.ap_closed(v, p, &s1),
+{
+    assert forall|s1: Schedule| apcl_same_views(res, &s1) implies s.ap_effects(v, p, &s1) && s.ap_closed(v, p, &s1) by {
+        lemma_apcl_effects_same(s, v, p, res, &s1);
         lemma_apcl_closed(s, v, p, &s1);
     }
 }
